@@ -122,6 +122,16 @@ def w_views(ctx, rng, idx):
     call('TT.transpose', lambda: b.transpose(overwrite=True), prop=P)
     c2 = a.copy()
     call('TT.conj', lambda: c2.conj(overwrite=True), prop=P)
+    if rng.random() < 0.25:
+        # in-place unary operations on trains in which ONE ndarray object sits at several positions (an even and an odd number of times)
+        with probe.oracle():
+            n_, m_, r_ = int(rng.integers(1, 4)), int(rng.integers(1, 3)), int(rng.integers(1, 3))
+            site = gen.randn(rng, (r_, n_, m_, r_), True)
+            reps = int(rng.integers(2, 5))
+            sh = tt.TT([gen.randn(rng, (1, n_, m_, r_), True)] + [site] * reps + [gen.randn(rng, (r_, n_, m_, 1), True)])
+            sh2 = tt.TT(list(sh.cores))
+        call('TT.conj', sh.conj, prop=P, overwrite=True, tags=['shared_core_objects'])
+        call('TT.transpose', sh2.transpose, prop=P, overwrite=True, conjugate=bool(rng.integers(0, 2)), tags=['shared_core_objects'])
     # element access
     dims = list(rows) + list(cols)
     total = int(np.prod(dims))
